@@ -19,8 +19,13 @@ package document
 //@   ensures [strings] forall j int :: 0 <= j && j < len(ret) ==>
 //@        (exists i int :: 0 <= i && i < len(entry.([]interface{})) && typeis(entry.([]interface{})[i], string) && entry.([]interface{})[i].(string) == ret[j])
 //@   ensures [own] ret == nil || fresh(ret)
+// C10: a list made of strings only is returned entry by entry, in order
+//@   ensures [all] typeis(entry, []interface{}) && (forall i int :: 0 <= i && i < len(entry.([]interface{})) ==> typeis(entry.([]interface{})[i], string)) ==>
+//@        len(ret) == len(entry.([]interface{})) && (forall i int :: 0 <= i && i < len(ret) ==> ret[i] == entry.([]interface{})[i].(string))
 //@   loop 0 invariant [own] result == nil || fresh(result)
 //@   loop 0 invariant len(result) <= $k && $k <= len(entries)
+//@   loop 0 invariant [all] (forall i int :: 0 <= i && i < len(entries) ==> typeis(entries[i], string)) ==>
+//@        len(result) == $k && (forall i int :: 0 <= i && i < $k ==> result[i] == entries[i].(string))
 //@   loop 0 invariant forall j int :: 0 <= j && j < len(result) ==>
 //@        (exists i int :: 0 <= i && i < $k && typeis(entries[i], string) && entries[i].(string) == result[j])
 
@@ -29,13 +34,24 @@ package document
 //@   pure
 //@   modifies nothing
 //@   ensures [own] ret == nil || fresh(ret)
+// C10: nothing for a non-list; a list made of objects only is returned entry by entry, in order
+//@   ensures [nonlist] !typeis(entry, []interface{}) ==> len(ret) == 0
+//@   ensures [all] typeis(entry, []interface{}) && (forall i int :: 0 <= i && i < len(entry.([]interface{})) ==> typeis(entry.([]interface{})[i], map[string]interface{})) ==>
+//@        len(ret) == len(entry.([]interface{})) && (forall i int :: 0 <= i && i < len(ret) ==> ret[i] == PublicKey(entry.([]interface{})[i].(map[string]interface{})))
 //@   loop 0 invariant [own] result == nil || fresh(result)
+//@   loop 0 invariant [all] $k <= len(typedEntry) && ((forall i int :: 0 <= i && i < len(typedEntry) ==> typeis(typedEntry[i], map[string]interface{})) ==>
+//@        len(result) == $k && (forall i int :: 0 <= i && i < $k ==> result[i] == PublicKey(typedEntry[i].(map[string]interface{}))))
 //
 //@ func ParseServices(entry) (ret)
 //@   pure
 //@   modifies nothing
 //@   ensures [own] ret == nil || fresh(ret)
+//@   ensures [nonlist] !typeis(entry, []interface{}) ==> len(ret) == 0
+//@   ensures [all] typeis(entry, []interface{}) && (forall i int :: 0 <= i && i < len(entry.([]interface{})) ==> typeis(entry.([]interface{})[i], map[string]interface{})) ==>
+//@        len(ret) == len(entry.([]interface{})) && (forall i int :: 0 <= i && i < len(ret) ==> ret[i] == Service(entry.([]interface{})[i].(map[string]interface{})))
 //@   loop 0 invariant [own] result == nil || fresh(result)
+//@   loop 0 invariant [all] $k <= len(typedEntry) && ((forall i int :: 0 <= i && i < len(typedEntry) ==> typeis(typedEntry[i], map[string]interface{})) ==>
+//@        len(result) == $k && (forall i int :: 0 <= i && i < $k ==> result[i] == Service(typedEntry[i].(map[string]interface{}))))
 
 //@ spec func docJWKValid(jwk JWK) bool =
 //@     strEntry(jwk, "kty") != "" && ((strEntry(jwk, "kty") == "RSA" && strEntry(jwk, "n") != "" && strEntry(jwk, "e") != "") ||
